@@ -1012,7 +1012,16 @@ func (vc *FnVC) doMapUpdate(x *ssa.MapUpdate, st *State) {
 	fr := vc.frameCheck(st, mh, m)
 	has := sel(sel(vc.cur(st, mh), m), k)
 	ml := vc.cur(st, "ML")
-	vc.setCompF(st, "ML", sto(ml, m, ite(has, sel(ml, m), "(+ "+sel(ml, m)+" 1)")), fr)
+	if vc.coarseMapLen() {
+		// a function that builds a map with many conditional insertions (a marshaller): the exact
+		// element count (a chain of conditional increments) is what makes the solver search; keep
+		// only its bounds. Strictly weaker knowledge, hence sound.
+		l := vc.enc.freshConst("maplen", sInt)
+		vc.emit(and("(<= "+sel(ml, m)+" "+l+")", "(<= "+l+" (+ "+sel(ml, m)+" 1))", "(>= "+l+" 1)"))
+		vc.setCompF(st, "ML", sto(ml, m, l), fr)
+	} else {
+		vc.setCompF(st, "ML", sto(ml, m, ite(has, sel(ml, m), "(+ "+sel(ml, m)+" 1)")), fr)
+	}
 	vc.setCompF(st, mh, sto(vc.cur(st, mh), m, sto(sel(vc.cur(st, mh), m), k, "true")), fr)
 	vc.setCompF(st, mv, sto(vc.cur(st, mv), m, sto(sel(vc.cur(st, mv), m), k, v)), fr)
 }
@@ -1032,6 +1041,12 @@ func (vc *FnVC) mapHas(st *State, mt *types.Map, m, k string) string {
 		}
 	}
 	return and(not(eq(m, "0")), sel(sel(vc.cur(st, mh), m), k))
+}
+
+// mapDom: the key set of a map as an array (nil map: empty).
+func (vc *FnVC) mapDom(st *State, mt *types.Map, m string) string {
+	mh, _, ks, _ := vc.mapComps(mt)
+	return ite(eq(m, "0"), "((as const "+arraySort(ks, sBool)+") false)", sel(vc.cur(st, mh), m))
 }
 
 func (vc *FnVC) mapGet(st *State, mt *types.Map, m, k string) string {
@@ -1231,6 +1246,9 @@ func (vc *FnVC) doNext(x *ssa.Next, st *State) {
 	// !ok ==> every key has been seen
 	q := vc.enc.freshName("qk")
 	vc.assume(implies(not(okN), "(forall (("+q+" "+ks+")) (=> "+vc.mapHas(st, mt, m, q)+" (select "+seen+" "+q+")))"))
+	// the same fact at the level of sets (quantifier-free): at exhaustion the set of keys seen is
+	// the key set of the map (seen is always a subset of it)
+	vc.assume(implies(not(okN), eq(seen, vc.mapDom(st, mt, m))))
 	vc.assume(vc.typeInv(st, kN, mt.Key()))
 	vc.assume(vc.typeInv(st, vN, mt.Elem()))
 	vc.setComp(st, c, ite(okN, sto(seen, kN, "true"), seen))
@@ -1271,4 +1289,19 @@ func (vc *FnVC) doMakeClosure(x *ssa.MakeClosure, st *State) {
 func mvCompOf(vc *FnVC, m *types.Map) string {
 	_, mv, _, _ := vc.mapComps(m)
 	return mv
+}
+
+// coarseMapLen: more than eight map insertions in the function.
+func (vc *FnVC) coarseMapLen() bool {
+	if vc.nMapUpdates < 0 {
+		vc.nMapUpdates = 0
+		for _, b := range vc.fn.Blocks {
+			for _, ins := range b.Instrs {
+				if _, ok := ins.(*ssa.MapUpdate); ok {
+					vc.nMapUpdates++
+				}
+			}
+		}
+	}
+	return vc.nMapUpdates > 8
 }
